@@ -14,6 +14,8 @@ class _Probe:
             return self.fn(self.spec, target, scope)
         if self.mode == 'handler2':
             return self.fn(target, self.spec)
+        if self.mode == 'kwcall':         # fn(target, **spec)
+            return self.fn(target, **self.spec)
         if self.mode == 'apply':          # fn(callback, path, value): record the callback's arguments
             out = []
             self.fn(out.append, self.spec, target)
